@@ -441,8 +441,10 @@ func faultCheck(n uint64, priorIdx int, acc *ev.Acc) {
 		{"Write", func(d *disk.Disk) error { (*d).Write(n-1, libh.Pat("B")); return nil }},
 		{"Barrier", func(d *disk.Disk) error { (*d).Barrier(); return nil }},
 	}
+	var lastTrace []simunix.Call
 	run := func(faultAt int, f simunix.Fault) (ncalls int, verdict string, hit bool) {
 		k, _ := setupKernel(cfg{N: n, Prior: priorIdx})
+		defer func() { lastTrace = k.Trace }()
 		if faultAt >= 0 {
 			k.Faults[faultAt] = f
 		}
@@ -462,6 +464,17 @@ func faultCheck(n uint64, priorIdx int, acc *ev.Acc) {
 						}
 					}
 				}
+				if p == "" && err == nil && f.Short > 0 && faultAt < len(k.Trace) {
+					// a short transfer is not an error of the call: the operation may finish it by re-issuing the call for
+					// the remainder; returning normally without doing so loses (write) or invents (read) bytes
+					short := k.Trace[faultAt]
+					for _, c := range k.Trace[faultAt+1:] {
+						if c.Name == short.Name && c.Err == 0 && len(c.Args) == 3 && fmt.Sprint(c.Args[2]) == fmt.Sprint(short.Args[2].(int64)+int64(f.Short)) {
+							return k.NCalls, "", true
+						}
+					}
+					return k.NCalls, fmt.Sprintf("%s returned normally although its system call #%d (%s) transferred only %d of %d bytes", s.name, faultAt, short.Name, f.Short, disk.BlockSize), true
+				}
 				if p == "" && err == nil {
 					return k.NCalls, fmt.Sprintf("%s returned normally although its system call #%d failed with %v", s.name, faultAt, f.Err), true
 				}
@@ -477,6 +490,23 @@ func faultCheck(n uint64, priorIdx int, acc *ev.Acc) {
 	if v != "" {
 		acc.Violate(ev.Violation{Key: "C11/fault/HARNESS", Msg: v})
 		return
+	}
+	base := append([]simunix.Call(nil), lastTrace...)
+	for i := 0; i < total && i < len(base); i++ {
+		if base[i].Name != "pread" && base[i].Name != "pwrite" {
+			continue
+		}
+		for _, sh := range []int{1, 2048, 4095} {
+			_, verdict, _ := run(i, simunix.Fault{Short: sh})
+			acc.Add("faults_injected", 1)
+			if verdict != "" {
+				acc.Violate(ev.Violation{
+					Key:    fmt.Sprintf("C11/fault/N%d/%s/call%d/short%d", n, priors[priorIdx].Name, i, sh),
+					Msg:    fmt.Sprintf("N=%d prior=%s: %s", n, priors[priorIdx].Name, verdict),
+					Replay: map[string]any{"mode": "fault", "N": n, "prior": priorIdx, "call": i, "short": sh},
+				})
+			}
+		}
 	}
 	for i := 0; i < total; i++ {
 		for _, e := range faultErrnos {
